@@ -119,6 +119,10 @@ def gen(tier, rng):
                     continue
                 H.append(['new eHOME=2f68'] + tr + [f'copy_b {vlib.hx(s)} {vlib.hx(d)} {m} {w} 0', 'all_paths ' + vlib.hx('/')])
             H.append(['new eHOME=2f68'] + tr + [f'move_p {vlib.hx(s)} {vlib.hx(d)}', 'all_paths ' + vlib.hx('/')])
+    # nested directories and files with their own modes (a copy keeps each entry's mode unless the Copier overrides it)
+    nm = ['mkdir_m ' + vlib.hx('/a') + ' 750', 'mkdir_m ' + vlib.hx('/a/s') + ' 711', 'mkfile_m ' + vlib.hx('/a/s/g') + ' 640', 'mkfile_m ' + vlib.hx('/a/f') + ' 600', 'mkdir_p ' + vlib.hx('/into')]
+    for c_ in ['copy ' + vlib.hx('/a') + ' ' + vlib.hx('/x'), 'copy ' + vlib.hx('/a') + ' ' + vlib.hx('/into'), 'copy_b ' + vlib.hx('/a') + ' ' + vlib.hx('/y') + ' 700 f 0', 'copy_b ' + vlib.hx('/a') + ' ' + vlib.hx('/z') + ' 700 d 0']:
+        H.append(['new eHOME=2f68'] + nm + [c_, 'all_paths ' + vlib.hx('/')])
     # multi-byte names in source and destination roots (destination paths are computed by trimming the source root as a string)
     mb = ['mkdir_p ' + vlib.hx('/é/漢/a'), 'write_all ' + vlib.hx('/é/漢/f') + ' ' + vlib.hx('x'), 'write_all ' + vlib.hx('/é/g') + ' ' + vlib.hx('y'), 'mkdir_p ' + vlib.hx('/日本')]
     for s_, d_ in [('/é', '/x'), ('/é', '/日本'), ('/é/漢', '/é/y'), ('/é/漢', '/日本'), ('/é/漢/f', '/日本/f'), ('/é', '/x/é')]:
